@@ -740,7 +740,10 @@ class World:
             return {info['o']}, set()
         if d == 'force_extrap':
             return self.sharing(info['o']), set()
-        if d == 'normalize' and info['stat'].startswith('partial'):
+        if d == 'normalize' and info['stat'].startswith('partial') and not (
+                info['stat'] == 'partial_notmost' and not conc['force']):
+            # only where renormalisation proceeds on a partial overlap; a call refused with PartialOverlap
+            # (force=False, partial_notmost) or DisjointError must leave its operand exactly as it was
             return self.sharing(info['o']), set()
         if d == 'observation' and info['stat'].startswith('partial') and str(conc['force']).lower().startswith('extrap') \
                 and self.kinds[info['src']] == 'source':
@@ -810,8 +813,9 @@ class World:
                     if i not in allow_s:
                         shares = any(self.shares_array(i, j) for j in clipped)
                         self.fail('%s:live_object_changed%s' % (d, ':shares_clipped_array' if shares else ''),
-                                  'object #%d (%s) samples differently after %s on other operands%s' % (
-                                      i, self.kinds[i], d, ': its table is a view of the modified array' if shares else ''), k)
+                                  'object #%d (%s) samples differently after %s%s, which is not a documented mutator of it%s' % (
+                                      i, self.kinds[i], d, ' (the call raised %s)' % out['err'] if raised else '',
+                                      ': its table is a view of the modified array' if shares else ''), k)
                 if mc != self.meta_snap[i]:
                     rec['meta_changed'].append(i)
                     rec['meta'][str(i)] = mc
